@@ -32,6 +32,7 @@
 #endif
 #include "glmx.hpp"
 #include <type_traits>
+#include <cstring>
 #include <new>
 using namespace glmx;
 
@@ -442,6 +443,26 @@ static void op_config(const Case& c, Outcome& o) {
   }
 }
 
+// ------------------------------------------------------------------------------------------------ type aliases
+// every alias NAME of glm/fwd.hpp (and of gtc/type_aligned.hpp where aligned types exist) must be the instantiation its name spells:
+// <alignment>_<precision>_<element prefix>vec<L> etc.  The expectation comes from the naming grammar (tools/gen_c16_aliases.py), not from GLM.
+struct AliasRow { const char* name; bool same; size_t size, want_size, align, want_align; };
+#define ALIAS_CORE(NAME, ...) {#NAME, std::is_same<glm::NAME, __VA_ARGS__>::value, sizeof(glm::NAME), sizeof(__VA_ARGS__), alignof(glm::NAME), alignof(__VA_ARGS__)},
+#if C16_ALIGNED
+#define ALIAS_ALIGNED(NAME, ...) {#NAME, std::is_same<glm::NAME, __VA_ARGS__>::value, sizeof(glm::NAME), sizeof(__VA_ARGS__), alignof(glm::NAME), alignof(__VA_ARGS__)},
+#else
+#define ALIAS_ALIGNED(NAME, ...)
+#endif
+static const AliasRow ALIASES[] = {
+#include "../drivers/c16_aliases.inc"
+};
+static const size_t NALIASES = sizeof(ALIASES) / sizeof(ALIASES[0]);
+static void op_alias(const Case& c, Outcome& o) {
+  const AliasRow& a = ALIASES[c.w[0]]; o.cls(std::strncmp(a.name, "aligned_", 8) == 0 ? 1 : std::strncmp(a.name, "packed_", 7) == 0 ? 2 : 0);
+  o.res(a.same, a.size); o.exp(1, a.want_size);
+  if (!a.same || a.size != a.want_size || a.align != a.want_align) { char m[160]; std::snprintf(m, sizeof m, "alias glm::%s is not the instantiation its name spells (sizeof %zu, expected %zu; alignof %zu, expected %zu)", a.name, a.size, a.want_size, a.align, a.want_align); o.bad(1, m); }
+}
+
 #define PART(k) (!defined(GLMX_PART) || GLMX_PART == k)
 #if defined(GLMX_PART)
 #  define C16_PARTDESC "element types of this part"
@@ -491,6 +512,9 @@ int main(int argc, char** argv) {
   CheckFn fns[NFACTS] = {op_fact<F_SIZEOF>, op_fact<F_ALIGNOF>, op_fact<F_ADDR>, op_fact<F_MEMBERS>, op_fact<F_VPTR>, op_fact<F_IMAGE>, op_fact<F_MAKE>, op_fact<F_LENGTH>, op_fact<F_COPY>};
   for (int f = 0; f < NFACTS; ++f) { Op& op = E.add(FACT_NAME[f], fns[f]); op.quick = {inst}; op.classes = classes;
     if (f == F_MAKE) { op.classes.clear(); op.note = "builders return defaultp: only instantiations of the alignment family of defaultp apply; vec1 has no pointer builder (counted trivial)"; } }
+#if PART(0)
+  { Op& op = E.add("type aliases of fwd.hpp / gtc/type_aligned.hpp are the instantiations their names spell", op_alias); op.quick = {range("ALIASES", 0, NALIASES, true)}; op.classes = {"core"}; if (C16_ALIGNED) { op.classes.push_back("aligned_*"); op.classes.push_back("packed_*"); } }
+#endif
   { Op& op = E.add("configuration facts (manual 2.10 struct size, defaultp, aligned/swizzle availability, length_t, quaternion memory order, literal sizes)", op_config); op.quick = {range("CONFIG_FACTS", 0, NCF, true)}; op.classes = {"fact"}; }
 
   char cfg[512]; std::snprintf(cfg, sizeof cfg, "{\"aligned_gentypes\": %d, \"default_aligned\": %d, \"swizzle_mode\": %d, \"anonymous_struct\": %d, \"xyzw_only\": %d, \"quat_wxyz\": %d, \"size_t_length\": %d, \"ctor_init\": %d, \"defaulted_functions\": %d, \"avx\": %d, \"avx2\": %d, \"glm_arch\": \"0x%x\", \"glm_lang\": \"0x%x\", \"instantiations\": %zu}",
